@@ -771,46 +771,6 @@ def _ref_utf8(c, n):
     return [0xf0 | (c >> 18), 0x80 | ((c >> 12) & 0x3f), 0x80 | ((c >> 6) & 0x3f), 0x80 | (c & 0x3f)]
 
 
-def _eq_out(nbits):
-    import absim
-    def eq(got, want):
-        if got is None or want is None:
-            return None
-        if len(got) != len(want):
-            return False
-        unknown = False
-        for g_, w_ in zip(got, want):
-            gb, wb = absim.to_bits(g_, nbits), absim.to_bits(w_, nbits)
-            if 'X' in gb or 'X' in wb:
-                if any(x != y and x != 'X' and y != 'X' and x in ('0', '1') and y in ('0', '1') for x, y in zip(gb, wb)):
-                    return False
-                unknown = True
-            elif gb != wb:
-                return False
-        return None if unknown else True
-    return eq
-
-
-def _hexs(vals, width):
-    m = (1 << width) - 1
-    return '[' + ' '.join(('%0' + str(width // 4) + 'x') % (v & m) if isinstance(v, int) else '?' for v in vals) + ']'
-
-
-def _confirm(sources, assign, run_fn, ref_fn, nbits):
-    """a symbolic mismatch is reported only with a concrete member of the case on which the two interpretations differ"""
-    import absim
-    eq = _eq_out(nbits)
-    for pat in (0, -1, 0x5555555555555555, 0xaaaaaaaaaaaaaaaa, 0x3333333333333333, 0x0f0f0f0f0f0f0f0f, 1, 0x80, 0x8000):
-        try:
-            vals = [s_.concrete(assign, pat) for s_ in sources]
-            got, want = run_fn(vals), ref_fn(vals)
-        except (absim.Infeasible, absim.Unsupported, TypeError):
-            continue
-        if eq(got, want) is False:
-            return vals, got, want
-    return None
-
-
 def abs_encoder(ctx, prog, f, is16):
     """UTF-32 / UTF-16 -> UTF-8 encoder decided by abstract interpretation of the whole body: the code-unit domain is cut at
     every constant the function (and its helpers) compares with and at the RFC 3629 boundaries; on each region the body is
@@ -853,7 +813,7 @@ def abs_encoder(ctx, prog, f, is16):
             continue
         n = utf8_len_of(a)
         cases.append(('U+%04X..U+%04X (%d byte%s)' % (a, b, n, 's' if n > 1 else ''), [absim.Source('c', width, a, b)], (lambda n: lambda vals: _ref_utf8(vals[0], n) + [0])(n)))
-    eq = _eq_out(8)
+    eq = absim.eq_out(8)
     total_leaves = 0
     verdicts = []
     for label, sources, ref in cases:
@@ -864,7 +824,7 @@ def abs_encoder(ctx, prog, f, is16):
             return False
         v = None
         for assign, values, got, want in bad:
-            w = _confirm(sources, assign, run_fn, ref, 8)
+            w = absim.confirm(sources, assign, run_fn, ref, 8)
             if w is None:
                 return False
             v = w
@@ -875,7 +835,7 @@ def abs_encoder(ctx, prog, f, is16):
     if badv:
         for label, (vals, got, want) in badv[:3]:
             ctx.violation('C08.layout', f['pq'], role + ' ' + label.split(' (')[0], fwhere(f),
-                          '%s: for the input %s the interpreted body stores %s, RFC 3629 / UTF-16 requires %s (region %s)' % (f['q'], _hexs(vals, 32 if not is16 else 16), _hexs(got, 8), _hexs(want, 8), label))
+                          '%s: for the input %s the interpreted body stores %s, RFC 3629 / UTF-16 requires %s (region %s)' % (f['q'], absim.hexs(vals, 32 if not is16 else 16), absim.hexs(got, 8), absim.hexs(want, 8), label))
     else:
         ctx.ok('C08.layout', f['pq'], role, fwhere(f), 'abstract interpretation over %d regions (%d cases after bit splitting): stored bytes equal the RFC 3629 encoding bit for bit%s' % (
             len(verdicts), total_leaves, '; pairs recombined as 0x10000 + (hi-0xd800)<<10 + (lo-0xdc00), invalid seconds store nothing' if is16 else ''))
@@ -930,7 +890,7 @@ def abs_decoder(ctx, prog, f, mode):
             return [0xd800 + (d >> 10), 0xdc00 + (d & 0x3ff), 0]
         return [code, 0]
 
-    eq = _eq_out(32)
+    eq = absim.eq_out(32)
     total = 0
     first_bad = None
     nlead = 0
@@ -947,7 +907,7 @@ def abs_decoder(ctx, prog, f, mode):
         if und:
             return False
         for assign, values, got, want in bad:
-            w = _confirm(sources, assign, run_fn, ref_fn, 32)
+            w = absim.confirm(sources, assign, run_fn, ref_fn, 32)
             if w is None:
                 return False
             if first_bad is None:
@@ -957,7 +917,7 @@ def abs_decoder(ctx, prog, f, mode):
     if first_bad:
         b, n, (vals, got, want) = first_bad
         ctx.violation('C08.layout', f['pq'], role, fwhere(f), '%s: for the %d-byte sequence %s the interpreted body yields %s, RFC 3629 requires %s%s' % (
-            f['q'], n, _hexs(vals, 8), _hexs(got, 32), _hexs(want, 32), ' (code, n)' if mode == 'enum' else ''))
+            f['q'], n, absim.hexs(vals, 8), absim.hexs(got, 32), absim.hexs(want, 32), ' (code, n)' if mode == 'enum' else ''))
     else:
         ctx.ok('C08.layout', f['pq'], role, fwhere(f), 'abstract interpretation for %d lead bytes x symbolic continuation bytes (%d cases): decoded value equals the RFC 3629 payload layout bit for bit%s' % (
             nlead, total, '; 4-byte sequences split into 0xd800 + (d >> 10), 0xdc00 + (d & 0x3ff)' if mode == 'utf16' else ''))
